@@ -202,7 +202,11 @@ func TestDrv_C11(t *testing.T) {
 						}
 						_ = early.Report(io.Discard)
 					}
+					var bystander vegeta.Metrics // (order 2) another Metrics of the same process, fed in turns with the one under test
 					for i, v := range arr {
+						if order == 2 && i%7 == 3 {
+							bystander.Add(&vegeta.Result{Code: 200, Timestamp: time.Unix(1600000000, int64(i)), Latency: time.Duration(1000+i) * time.Hour})
+						}
 						m.Add(&vegeta.Result{Seq: uint64(i), Code: 200, Timestamp: time.Unix(1600000000, int64(i)), Latency: time.Duration(v)})
 						if order == 0 && i == n/5 && n >= 10 {
 							m.Close() // a periodic report closes in between; what follows may add nothing to any running total
@@ -216,6 +220,9 @@ func TestDrv_C11(t *testing.T) {
 						}
 					}
 					m.Close()
+					if order == 2 {
+						bystander.Close()
+					}
 					if order >= 1 {
 						// another Metrics starts its life in between (a second report in the same process); closing this one again
 						// must not move a percentile
